@@ -49,6 +49,10 @@ type Opts struct {
 	NoMeta   bool     // no $schema at the root
 	Keys     []string // property-name pool
 	Lens     Lens
+	// CommonOnly (draft-07 mode): only keywords that exist in both drafts; no fragment $id
+	// anchors, no array-form items, additionalItems or dependencies.
+	CommonOnly bool
+	NoAnchors  bool
 	// Dynamic (2020-12 only): never set by C01; reserved.
 }
 
@@ -102,7 +106,7 @@ func Draw(t *rapid.T, o Opts) *jv.V {
 		g.nDefs = 1 + g.intn(3, "ndefs")
 		g.anchor = make([]bool, g.nDefs)
 		for i := range g.anchor {
-			g.anchor[i] = g.coin(3, "defanchor")
+			g.anchor[i] = g.coin(3, "defanchor") && !o.CommonOnly && !o.NoAnchors
 		}
 	}
 	root := g.schema(o.MaxDepth, false, true)
@@ -465,6 +469,15 @@ func (g *gen) schema(depth int, descended bool, isRoot bool) *jv.V {
 		return s
 	}
 	voc := g.vocabulary()
+	if g.o.CommonOnly {
+		var f []string
+		for _, k := range voc {
+			if k != "items[]" && k != "additionalItems" && k != "dependencies" {
+				f = append(f, k)
+			}
+		}
+		voc = f
+	}
 	s := obj()
 	n := 1 + g.intn(4, "nkw")
 	if g.coin(6, "manykw") {
